@@ -34,7 +34,7 @@ def gen_lit(r, maxlen=4):
 
 
 NAMES = ['x', 'y', 'z', 'items', 'obj', 'flag', 'n1']
-EXPRS = ['x', 'y + 1', "x or 'd'", '1 == 1', "_['x']", 'len(items)', 'not flag']
+EXPRS = ['x', 'y + 1', "x or 'd'", '1 == 1', "_['x']", 'len(items)', 'not flag', 'y > 1', 'n1 >= 0 or x']
 VAR_FLAGS = ['html_quote', 'upper', 'lower', 'capitalize', 'spacify', 'url_quote', 'newline_to_br', 'sql_quote',
              'thousands_commas']
 
